@@ -867,9 +867,11 @@ example :
 `Representable env t` (Model/SerTokens.lean, decidable) is the C01 domain; it does not ask that names be
 writable — that is what the call establishes.  One hypothesis on the tables is added:
 `Repair.nameTableOK env` (decidable; Lemmas/RepairRoundTrip.lean): the namespace of every registered name
-has an XML-expressible URI (XML Chars, non-empty unless it is the no-namespace id).  It is needed: a
-`Representable` tree may hold an element whose namespace URI is U+0001 (nothing declares it), and the
-call would add `xmlns:n0="&#x1;"`, which no XML parser accepts. -/
+has a URI that can be declared (XML Chars, non-empty unless it is the no-namespace id, and — since /repo
+6153ddf — not the xmlns namespace name `http://www.w3.org/2000/xmlns/`, to which nothing can be bound).
+It is needed: a `Representable` tree may hold an element whose namespace URI is U+0001, or the xmlns
+namespace name (nothing declares it), and the call would add `xmlns:n0="&#x1;"`, which no XML parser
+accepts, resp. `xmlns:n0="http://www.w3.org/2000/xmlns/"`, which the parser now refuses. -/
 
 section RepairRoundTrip
 open XotModel.Repair
@@ -1043,6 +1045,18 @@ example : ∃ env' T' s p, createMissingPrefixes c01Env (.node (.element 2) [.no
     the call succeeds, and the repaired document is no longer representable (`xmlns:n0="&#x1;"`). -/
 example :
     let env : Env := { c01Env with namespaces := c01Env.namespaces ++ [[Char.ofNat 1]],
+                                   names := c01Env.names ++ [(['e'], 4)] }
+    let t : Tree := .node .document [.node (.element 6) []]
+    Representable env t = true ∧ nameTableOK env = false ∧
+    (match createMissingPrefixes env t [] with
+      | .ok (env', t') => some (Representable env' t')
+      | _ => none) = some false := by
+  decide
+
+/-- … and likewise with a name in the xmlns namespace name: the call adds a declaration the parser refuses
+    (`C03_reject_reserved_declaration`). -/
+example :
+    let env : Env := { c01Env with namespaces := c01Env.namespaces ++ [xmlnsNamespaceUri],
                                    names := c01Env.names ++ [(['e'], 4)] }
     let t : Tree := .node .document [.node (.element 6) []]
     Representable env t = true ∧ nameTableOK env = false ∧
